@@ -75,7 +75,7 @@ class VThread:
         self.job = engine.job_of_task(owner)
         kind = THREAD_KIND.get(name, name)
         if kind == "lockout" and self.job is not None and self.job._process is None:
-            kind = "lockout_abort"
+            kind = "lockout_fail" if id(self.job) in engine.startfailed else "lockout_abort"
         if kind == "procwait" and self.job is not None and self.job._process is None:
             kind = "adoptwait"
         self.kind = kind
@@ -179,6 +179,10 @@ class VProcessBuilder(ProcessBuilder):
 
     def start(self, task_mode=False):
         job = self.engine.starting_job()
+        if self.engine.plan["jobs"][job.config.name].get("codes", [0])[0] == 8:
+            # the launcher cannot start the process (no interpreter, batch system refusing the job, ...)
+            self.engine.startfailed.add(id(job))
+            raise OSError("the process cannot be started (as planned)")
         p = VProc(self.engine, job)
         self.engine.procs[p.pid] = p
         self.engine.launches[p.jobname] = self.engine.launches.get(p.jobname, 0) + 1
@@ -639,6 +643,7 @@ class Engine:
         self.waiter = "none"
         self.waiter_task = None
         self.stopreq = False
+        self.startfailed = set()
         self.tokens = {n: VToken(self, n, c) for n, c in self.plan.get("tokens", {}).items()}
         launcher = DirectLauncher(VConnector(self, self.workdir / "local"))
         self.xp = experiment(self.workdir, "xv", launcher=launcher)
@@ -668,7 +673,7 @@ class Engine:
         spec = self.plan["jobs"][name]
         cls = NodePass if spec.get("pass") else NodeOut if spec.get("out") else Node
         kw = {"name": name}
-        lst, dct, inners = [], {}, []
+        lst, dct, inners, lol, lod = [], {}, [], [], []
         pre, init, explicit = [], [], []
         for up, how in spec.get("deps", {}).items():
             o = self.outputs[up]
@@ -690,6 +695,13 @@ class Engine:
                 explicit.append(up)
             elif how == "meta":
                 kw["metaup"] = o
+            elif how == "listlist":
+                lol.append([o])
+            elif how == "listdict":
+                lod.append({up: o})
+            elif how == "taskobj":
+                # the upstream task object itself (not what its submission returned)
+                kw["direct"] = self.outjob[up].config
             else:
                 raise MachineryError(f"unknown embedding {how}")
         if lst:
@@ -698,6 +710,10 @@ class Engine:
             kw["dct"] = dct
         if inners:
             kw["nested"] = Holder(inners=inners)
+        if lol:
+            kw["lol"] = lol
+        if lod:
+            kw["lod"] = lod
         cfg = cls(**kw)
         if pre:
             cfg.add_pretasks(*pre)
